@@ -95,18 +95,20 @@ func NewRedisBloomFilterFromBitSet(data []uint64, numHashes uint) (*BloomFilter,
 	size := util.Max(uint(len(data)*64), 1)
 	numHashes = util.Max(numHashes, 1)
 	metadataKey := util.GenerateRandomString(16)
-	err := getRedisClient().HSet(context.Background(), metadataKey, map[string]interface{}{"size": size, "numHashes": numHashes}).Err()
-	if err != nil {
-		return nil, fmt.Errorf("gostatix: error while creating bloom filter redis. error: %v", err)
-	}
 	bitSetRedis, err := fromDataRedis(data)
 	if err != nil {
 		return nil, err
 	}
+	metadata := map[string]interface{}{"size": size, "numHashes": numHashes, "bitsetKey": bitSetRedis.getKey()}
+	err = getRedisClient().HSet(context.Background(), metadataKey, metadata).Err()
+	if err != nil {
+		return nil, fmt.Errorf("gostatix: error while creating bloom filter redis. error: %v", err)
+	}
 	return &BloomFilter{
-		size:      size,
-		numHashes: numHashes,
-		filter:    bitSetRedis,
+		size:        size,
+		numHashes:   numHashes,
+		filter:      bitSetRedis,
+		metadataKey: metadataKey,
 	}, nil
 }
 
